@@ -6,6 +6,7 @@ Payload: {'mode': 'gen', 'seeds': [...], 'tier': ...}  - histories are generated
 After every call the runner records: the normalised call (objects by number), the outcome class,
 a full snapshot by object identity (public getters + raw parent/owner) and the read-only API."""
 import random
+import signal
 import sys
 
 from harness.impl.util import exc_code, main
@@ -82,12 +83,19 @@ class World:
         tasks = []
         look = []
         for wi, w in enumerate(self.wbss):
-            tasks.append([self.num[id(t)] for t in w.tasks])
+            try:
+                tasks.append([self.num[id(t)] for t in w.tasks])
+            except CallTimeout:
+                raise
+            except BaseException:  # noqa - WBS.tasks itself raises (a cycle): no list can be compared
+                tasks.append([10 ** 6])
             if [self.num[id(t)] for t in w.roots] != [self.num[id(t)] for t in w._root().children]:
                 self.anomalies.append('WBS.roots differs from the children of the root')
             for i in ids:
                 try:
                     look.append([wi, i, 0, self.num[id(w[i])]])
+                except CallTimeout:
+                    raise
                 except BaseException as e:  # noqa
                     look.append([wi, i, exc_code(e), None])
         return {'tasks': tasks, 'look': look}
@@ -408,19 +416,43 @@ def normalise(W, op, how):
     return op
 
 
+class CallTimeout(BaseException):
+    pass
+
+
+def _alarm(signum, frame):
+    raise CallTimeout()
+
+
+CALL_LIMIT = 3.0     # seconds; a broken implementation can loop for ever (a parent cycle under _find_root)
+
+
 def do_call(W, op, how, ids):
     how = dict(how)
     op = normalise(W, op, how)
-    code, exc = 0, None
+    code, exc, hung = 0, None, False
+    signal.signal(signal.SIGALRM, _alarm)
+    signal.setitimer(signal.ITIMER_REAL, CALL_LIMIT)
     try:
         execute(W, op, how)
+    except CallTimeout:
+        code, exc, hung = 19, 'the call did not return within %.0f s' % CALL_LIMIT, True
     except BaseException as e:  # noqa - every exception of the implementation is an observation
-        if isinstance(e, (KeyboardInterrupt, SystemExit, AssertionError)) and not isinstance(e, RuntimeError):
+        if isinstance(e, (KeyboardInterrupt, SystemExit, AssertionError)):
             raise
         code, exc = exc_code(e), '%s: %s' % (type(e).__name__, str(e)[:120])
+    finally:
+        signal.setitimer(signal.ITIMER_REAL, 0)
     post = W.snapshot()
+    signal.setitimer(signal.ITIMER_REAL, CALL_LIMIT)
+    try:
+        reads = W.reads(ids)
+    except CallTimeout:
+        reads, hung = {'tasks': [[10 ** 6] for _ in W.wbss], 'look': []}, True
+    finally:
+        signal.setitimer(signal.ITIMER_REAL, 0)
     stale = how.get('facade') is not None
-    return {'op': op, 'how': how, 'code': code, 'exc': exc, 'post': post, 'reads': W.reads(ids), 'stale': stale}
+    return {'op': op, 'how': how, 'code': code, 'exc': exc, 'post': post, 'reads': reads, 'stale': stale, 'hung': hung}
 
 
 # =====================================================================================================
@@ -1113,6 +1145,8 @@ def gen_history(seed):
         rec['acq'] = [acq] if acq else []
         steps.append(rec)
         snap = rec['post']
+        if rec['hung']:
+            break                # the implementation no longer answers on this graph: the history ends here
     return {'seed': seed, 'steps': steps, 'anomalies': sorted(set(W.anomalies)),
             'plan': {'ops': G.n_ops, 'tasks': G.n_tasks, 'ids': G.ids, 'wbs': G.n_wbs}}
 
@@ -1128,6 +1162,8 @@ def run_ops(items):
         op, how = (it[0], it[1]) if (len(it) == 2 and isinstance(it[1], dict)) else (it, {})
         ids = sorted(set(t.id for t in W.objs if t.id != taskmod.EMPTY_TASK_ID) | ({op[1]} if op[0] in ('NewTask', 'NewTaskRel') else set()))
         steps.append(do_call(W, op, how, ids + [max(ids + [0]) + 1]))
+        if steps[-1]['hung']:
+            break
     return {'steps': steps, 'anomalies': sorted(set(W.anomalies))}
 
 
